@@ -722,19 +722,35 @@ class Interp(object):
             elem = ("elem", it, self.site(st))
             if isinstance(it, tuple) and it[0] == "call" and it[1] == ("name", "enumerate") and it[2]:
                 elem = ("tuple", (("index", it[2][0], self.site(st)), ("elem", it[2][0], self.site(st))))
-            for r in self.assign(st.target, elem, p, st):
-                for s in self.exec_block(st.body, r):
-                    if s.status in ("ok", "continue"):
-                        s.status = "ok"
-                        self.emit(s, "loop", st, ("back", None))
-                        self.emit(s, "loop", st, ("exit", "after-iteration"))
-                        out.extend(self.exec_block(st.orelse, s))
-                    elif s.status == "break":
-                        s.status = "ok"
-                        self.emit(s, "loop", st, ("exit", "break"))
-                        out.append(s)
-                    else:
-                        out.append(s)
+            cur = list(self.assign(st.target, elem, p, st))
+            for rnd in range(max(1, self.cfg.unroll)):
+                nxt = []
+                for r in cur:
+                    for s in self.exec_block(st.body, r):
+                        if s.status in ("ok", "continue"):
+                            s.status = "ok"
+                            self.emit(s, "loop", st, ("back", None))
+                            if rnd + 1 < max(1, self.cfg.unroll):
+                                # leave after this iteration, or go round once more with a fresh element
+                                t = s.fork()
+                                self.emit(t, "loop", st, ("exit", "after-iteration"))
+                                out.extend(self.exec_block(st.orelse, t))
+                                e2 = ("elem", it, self.site(st), rnd + 2)
+                                if isinstance(elem, tuple) and elem[0] == "tuple":
+                                    e2 = ("tuple", (("index", it[2][0], self.site(st), rnd + 2), ("elem", it[2][0], self.site(st), rnd + 2)))
+                                nxt.extend(self.assign(st.target, e2, s, st))
+                            else:
+                                self.emit(s, "loop", st, ("exit", "after-iteration"))
+                                out.extend(self.exec_block(st.orelse, s))
+                        elif s.status == "break":
+                            s.status = "ok"
+                            self.emit(s, "loop", st, ("exit", "break"))
+                            out.append(s)
+                        else:
+                            out.append(s)
+                cur = nxt
+                if not cur:
+                    break
         return out
 
     def known_emptiness(self, it, path):
